@@ -5,6 +5,8 @@ import AnyTLS.Drv.Sess
 import AnyTLS.Drv.Pipe
 import AnyTLS.Drv.Dest
 import AnyTLS.Drv.Push
+import AnyTLS.Drv.Open
+import AnyTLS.Drv.Pool
 
 open AnyTLS.Drv
 
@@ -13,6 +15,8 @@ structure DrvState where
   pipe : Option MPipe := none
   dns : AnyTLS.DnsCache := []
   proc : Option MProc := none
+  opn : Option MOpen := none
+  pool : Option MPool := none
 
 def sessLine (st : DrvState) (toks : List String) : DrvState × String :=
   match toks with
@@ -48,6 +52,10 @@ def pushLine (st : DrvState) (toks : List String) : DrvState × String :=
     match procBegin with
     | some p => ({ st with proc := some p }, "ok")
     | none => (st, "bad-op")
+  | ["proc", cfg, _used] =>
+    match procFresh cfg with
+    | some p => ({ st with proc := some p }, "ok")
+    | none => ({ st with proc := none }, "reject")
   | _ =>
     match st.proc with
     | none => (st, "nonode")
@@ -56,12 +64,49 @@ def pushLine (st : DrvState) (toks : List String) : DrvState × String :=
       | some (p', o) => ({ st with proc := some p' }, o)
       | none => (st, "bad-op")
 
+def openLine (st : DrvState) (toks : List String) : DrvState × String :=
+  match toks with
+  | ["reset"] =>
+    match openReset with
+    | some m => ({ st with opn := some m }, "ok")
+    | none => (st, "bad-op")
+  | _ =>
+    match st.opn with
+    | none => (st, "nonode")
+    | some m =>
+      match openOp m toks with
+      | some (m', o) => ({ st with opn := some m' }, o)
+      | none => (st, "bad-op")
+
+def poolLine (st : DrvState) (toks : List String) : DrvState × String :=
+  match toks with
+  | "reset" :: rest =>
+    match poolReset rest with
+    | some (m, o) => ({ st with pool := some m }, o)
+    | none => (st, "bad-op")
+  | _ =>
+    match st.pool with
+    | none => (st, "nonode")
+    | some m =>
+      match poolOp m toks with
+      | some (m', o) => ({ st with pool := some m' }, o)
+      | none => (st, "bad-op")
+
+/-- e2e scenarios: only those the models predict are answered; the rest is oracle-only -/
+def e2eLine (toks : List String) : String :=
+  match toks with
+  | ["reuse", n] => match n.toNat? with | some n => reuseOp n | none => "bad-op"
+  | _ => "skip"
+
 def dispatch (st : DrvState) (line : String) : DrvState × String :=
   match tokens line with
   | "frame" :: rest => (st, frameOp rest)
   | "sess" :: rest => sessLine st rest
   | "auth" :: rest => (st, authOp rest)
   | "push" :: rest => pushLine st rest
+  | "open" :: rest => openLine st rest
+  | "pool" :: rest => poolLine st rest
+  | "e2e" :: rest => (st, e2eLine rest)
   | "dest" :: rest => (st, destOp rest)
   | "dns" :: rest => let (c, o) := dnsOp st.dns rest; ({ st with dns := c }, o)
   | "pad" :: "preamble" :: rest => (st, preambleOp rest)
